@@ -105,6 +105,7 @@ func runC08(r *fw.Run, p *fw.Program) {
 	c.ruleOrder()
 	c.ruleNumLen()
 	c.ruleNullSem()
+	c.rulePure()
 	c.ruleToValue()
 	c.ruleJQ()
 }
@@ -1053,8 +1054,24 @@ func (c *c08ctx) ruleFallback() {
 }
 
 // C08.layer: call sites of the fallback helpers
-func (c *c08ctx) ruleLayer() {
-	ru := c.r.Rule("C08.layer", "every wrapper passes (own key, bound extra-key method, the value's has, the value's key) to the fallback helpers in that order, has and key taken from the same value part, from inside the method of the same name", 6)
+const c08LayerDesc = "every decode-value JQValueKey/JQValueHas returns, on every path, the result of the layering helper (no early return of the extra-key lookup before the value's own lookup), and passes (own key, bound extra-key method, the value's has, the value's key) to it in that order, has and key taken from the same value part, from inside the method of the same name"
+
+func (c *c08ctx) ruleLayer() { c.layerChecks(c.r.Rule("C08.layer", c08LayerDesc, 12)) }
+
+// c08KeyLayerAs runs the key-layering checks (C08.layer) under another rule id, for properties that rest
+// on the same precedence (C12: keys/topath vs .[name]).
+func c08KeyLayerAs(r *fw.Run, p *fw.Program, ruleID string) {
+	ru := r.Rule(ruleID, c08LayerDesc, 12)
+	c := &c08ctx{r: fw.NewRun("C08", "quick", 0), p: p, envs: map[*ssa.Function]*fw.TermEnv{}, kindOf: map[string]int64{}, byKind: map[string]*types.Named{}}
+	if !c.anchors() {
+		ru.Undecided("anchor", "", "the decode-value wrappers / extra-key base type do not resolve (see C08.anchors)")
+		return
+	}
+	c.r = r
+	c.layerChecks(ru)
+}
+
+func (c *c08ctx) layerChecks(ru *fw.Rule) {
 	kf, hf := c.fallbackFns()
 	if kf == nil || hf == nil {
 		ru.Undecided("anchor", "", "fallback helpers not found")
@@ -1127,6 +1144,53 @@ func (c *c08ctx) ruleLayer() {
 				}
 			}
 			ru.Check(len(msgs) == 0, key, c.p.Rel(call.Pos()), "base under value, same value part", strings.Join(msgs, "; "))
+		}
+	}
+	// every decode-value wrapper (embeds the extra-key base type): all ways out of JQValueKey / JQValueHas are
+	// the layering helper's result
+	for _, w := range c.wrappers {
+		st, ok := w.Underlying().(*types.Struct)
+		if !ok {
+			continue
+		}
+		emb := false
+		for i := 0; i < st.NumFields(); i++ {
+			if st.Field(i).Embedded() && st.Field(i).Type() == types.Type(c.baseT) {
+				emb = true
+			}
+		}
+		if !emb {
+			continue
+		}
+		for _, m := range []struct {
+			name   string
+			helper *ssa.Function
+		}{{"JQValueKey", kf}, {"JQValueHas", hf}} {
+			key := "returns:" + tname(w) + "." + m.name
+			f := c.method(w, m.name)
+			if f == nil || f.Blocks == nil {
+				ru.Undecided(key, "", m.name+" is not declared on the wrapper (the embedded value part and extra-key part both have one)")
+				continue
+			}
+			e := c.env(f)
+			var msgs []string
+			n := 0
+			for _, rc := range fw.ReturnCases(f, 0) {
+				n++
+				call, isCall := fw.Resolve(rc.Val).(*ssa.Call)
+				if !isCall || call.Common().StaticCallee() != m.helper {
+					t := e.Term(rc.Val)
+					if strings.Contains(t, base+"."+m.name) || strings.Contains(t, "("+base+")."+m.name) {
+						msgs = append(msgs, "returns the extra-key lookup "+t+" directly, before/without the value's own lookup: a field named like an extra key is listed by keys but .[name] gives the extra value")
+					} else {
+						msgs = append(msgs, "returns "+t+" without going through "+fw.ShortFn(m.helper))
+					}
+				}
+			}
+			if n == 0 {
+				msgs = append(msgs, "no return")
+			}
+			ru.Check(len(msgs) == 0, key, c.pos(f), "all paths return "+fw.ShortFn(m.helper)+"(...)", strings.Join(uniq(msgs), "; "))
 		}
 	}
 }
